@@ -339,9 +339,12 @@ TEXT["C26"] = {
              "number of further cycles: Sleep sends DISCONNECT(duration), nothing reaches the client while it sleeps, at exactly "
              "now + duration the PINGREQ with the client ID is sent, every message reaches its handler exactly once in order, "
              "Sleep returns nil once (exact traces); C26_sleep_cycle_with_a_qos1_message - a QoS 1 message during a sleep shorter than the "
-             "gateway's RetryDelay: one PUBLISH at the wake-up, one handler invocation, one PUBACK at the broker; C26_refuted - two broker messages in flight on one not-yet-registered topic: only "
+             "gateway's RetryDelay: one PUBLISH at the wake-up, one handler invocation, one PUBACK at the broker; "
+             "C26_sleep_cycle_with_a_qos2_message_holds_the_PUBREL - a QoS 2 message: PUBLISH and PUBREC at the wake-up, the broker's "
+             "PUBREL is queued for the session that is asleep again, the handler runs at the NEXT wake-up (exact trace of what model "
+             "and code do; an observation, see DESIGN.md section 11); C26_refuted - two broker messages in flight on one not-yet-registered topic: only "
              "one reaches the handler (recorded finding, witness on the real code in every run). The other API calls, sleep "
-             "cycles with QoS 2 or several QoS 1 messages or over a lossy link and handler delivery on wildcard / predefined topics are NOT proved: the monitor clauses (26,1)-(26,4) check them on the real client + real "
+             "cycles with several QoS 1/2 messages or over a lossy link and handler delivery on wildcard / predefined topics are NOT proved: the monitor clauses (26,1)-(26,4) check them on the real client + real "
              "gateway against the composed model on generated programs incl. bursts in flight.",
     "note": COMMON_NOTE + " Partial: the theorems cover Connect / Ping / Register / Publish QoS 0-2 on short and registered names / Subscribe and Unsubscribe on short names / broker messages QoS 0-1 on them / Disconnect programs (no wildcards, no predefined topics, no time passing) and sleep cycles with QoS 0 broker messages on short topics; everything else of the property is tested against the composed model, not proved. The broker is a specification broker (MQTT 3.1.1 routing), not mosquitto.",
     "technique": "Coq theorems about the composed client+gateway+broker model for a class of API programs, a refutation witness, and end-to-end differential execution of the real client and gateway with a monitor",
